@@ -691,14 +691,19 @@ def run_impl(case):
                     return
                 done.add(h)
                 m = maps[h]
+                ghost = [w for w, n, _ in m.windows() if (h, id(w)) not in wchild]
+                if ghost:
+                    for lab in ("C02", "C03"):
+                        fails.append((lab, f"map {h}: windows() lists {len(ghost)} window(s) that no accepted add_window() call put there "
+                                           f"(a call that raised was applied all the same)", len(obs)))
                 items = [(s_, 0, r, n) for r, n, (s_, e_) in m.resources()] + \
-                        [(s_, 1, w, n) for w, n, (s_, e_, r_) in m.windows()]
+                        [(s_, 1, w, n) for w, n, (s_, e_, r_) in m.windows() if (h, id(w)) in wchild]
                 for _, isw, w, n in items:
                     if isw:
                         dump(wchild[(h, id(w))])
                 lines.append(f"map {h} {m.data_width}")
                 rs = {id(r): (s_, e_) for r, n, (s_, e_) in m.resources()}
-                wsd = {id(w): (s_, e_, r_) for w, n, (s_, e_, r_) in m.windows()}
+                wsd = {id(w): (s_, e_, r_) for w, n, (s_, e_, r_) in m.windows() if (h, id(w)) in wchild}
                 for _, isw, x, n in sorted(items, key=lambda t: t[0]):
                     if isw:
                         s_, e_, r_ = wsd[id(x)]
